@@ -279,6 +279,19 @@ def reshape_failures(d, st=None):
                     if s not in z.blocks or not exact_equal(z.blocks[s], blk):
                         fails.append((f"C07/reshape-back/{cls}/block", f"{shape}->{target}->back: block {s}"))
                         break
+            # the conjugate of x, taken only now (x's index objects have been through this merge), makes the same trip
+            if cls == "general" and len(target) < len(shape) and x.blocks:
+                try:
+                    xc = x.conj()
+                    zc = xc.reshape(target).reshape(shape)
+                    if st is not None:
+                        st.transitions += 2
+                    if tuple(index_key(i) for i in zc.indices) != tuple(index_key(i) for i in xc.indices):
+                        fails.append(("C07/conj-after-merge/indices", f"{shape}->{target}->back on the conjugate taken after the merge: index tables not restored"))
+                    elif zc.charge != xc.charge or not exact_equal(embed(zc, frame_of(xc)), embed(xc)):
+                        fails.append(("C07/conj-after-merge/value", f"{shape}->{target}->back on the conjugate taken after the merge"))
+                except Exception as e:
+                    fails.append((f"C07/conj-after-merge/raised-{type(e).__name__}", f"{shape}->{target}: {e}"))
     return fails, nontrivial
 
 
